@@ -17,6 +17,11 @@ def run(tier):
         ["MCCreate_hist_quick.cfg"], ["MCCreate_hist_t1.cfg", "MCCreate_hist_t2.cfg"],
         [SAB_SCRATCH, SAB_RESET], env={"CREATE_ALSO": "bcf"})
 
+    # cohorts of hundreds of samples (class-level records, CreateLarge.tla): weight exactly one per counted record
+    rl = vcore.tlc_must_pass("c10_large", "MCCreateLarge", "MCCreateLarge_quick.cfg" if tier == "quick" else "MCCreateLarge_t1.cfg",
+                             workers=4, timeout=3000)
+    rep.add_tlc(rl)
+    rep.add_replay("createlarge", vcore.replay("createlarge", rl.replay, "c10_large"))
     # Create.tla refines the counter machine ...
     r = vcore.tlc_must_pass("c10_refine", "MCCreate", "MCCreate_refine.cfg", workers=8, timeout=3000)
     rep.add_tlc(r)
